@@ -1,6 +1,7 @@
 package worlds
 
 import (
+	"math"
 	"github.com/bradenaw/juniper/container/xheap"
 	"github.com/bradenaw/juniper/iterator"
 )
@@ -254,13 +255,13 @@ func (w *hpW) heapInit() {
 	}
 	lessFn := func(a, b hpItem) bool { return w.less(a.p, b.p) }
 	// a three-way compare may return any negative/positive number, not just -1/+1
-	mag := 1 + 6*r.Choose(2, "cmp-magnitude")
+	neg, pos := cmpMagnitudes(r)
 	cmpFn := func(a, b hpItem) int {
 		switch {
 		case w.less(a.p, b.p):
-			return -mag
+			return neg
 		case w.less(b.p, a.p):
-			return mag
+			return pos
 		}
 		return 0
 	}
@@ -452,13 +453,13 @@ func (w *hpW) pqInit() {
 		r.Logf("PriorityQueue built from %v, order=%d keys=%d priorities=%d", initial, w.order, w.nKeys, w.nPrio)
 	}
 	if w.order >= 2 {
-		qmag := 1 + 6*r.Choose(2, "cmp-magnitude")
+		neg, pos := cmpMagnitudes(r)
 		w.q = xheap.NewPriorityQueueCmp(func(a, b int) int {
 			switch {
 			case w.less(a, b):
-				return -qmag
+				return neg
 			case w.less(b, a):
-				return qmag
+				return pos
 			}
 			return 0
 		}, initial)
@@ -1244,4 +1245,18 @@ func heapWorld(r *R) {
 			w.heapObserve("drain")
 		}
 	}
+}
+
+// cmpMagnitudes picks what a three-way compare returns for "less" and "greater": any negative and
+// any positive number will do, the ones that cannot be negated or doubled included.
+func cmpMagnitudes(r *R) (neg, pos int) {
+	switch r.Choose(4, "cmp-magnitude") {
+	case 0:
+		return -1, 1
+	case 1:
+		return -7, 7
+	case 2:
+		return math.MinInt, math.MaxInt
+	}
+	return math.MinInt, 1
 }
